@@ -41,6 +41,42 @@ def run(repo, chk):
     rule_f(repo, chk)
 
 
+def _body_roles(pb):
+    """{actual local: role} in _parse_body: body_part / data = the joined carry of the plain / chunked branch; size, rest = result of the chunk-size step"""
+    m = {}
+    joins = [n for n in walk_no_defs(pb.node) if isinstance(n, ast.Assign) and isinstance(n.targets[0], ast.Name) and src(n.value).replace(' ', '') == "b''.join(self._buf)"]
+    for n in joins:
+        t = n.targets[0].id
+        used_len = any(isinstance(w, ast.AugAssign) and src(w.target) == 'self._clen_rest' and src(w.value) == f'len({t})' for w in walk_no_defs(pb.node))
+        passed = any(isinstance(c, ast.Call) and src(c.func) == 'self._parse_chunk_size' and c.args and src(c.args[0]) == t for c in calls_in(pb.node))
+        if used_len:
+            m[t] = 'body_part'
+        elif passed:
+            m[t] = 'data'
+    for n in walk_no_defs(pb.node):
+        if isinstance(n, ast.Assign) and isinstance(n.targets[0], ast.Tuple) and len(n.targets[0].elts) == 2 and isinstance(n.value, ast.Call) \
+                and src(n.value.func) == 'self._parse_chunk_size' and all(isinstance(x, ast.Name) for x in n.targets[0].elts):
+            m[n.targets[0].elts[0].id], m[n.targets[0].elts[1].id] = 'size', 'rest'
+    return m
+
+
+def _chunk_roles(pcs):
+    m = {}
+    dv = pcs.params[1]
+    for n in walk_no_defs(pcs.node):
+        if isinstance(n, ast.Assign) and isinstance(n.targets[0], ast.Name) and src(n.value).replace(' ', '') == f"{dv}.find(b'\\r\\n')":
+            m[n.targets[0].id] = 'idx'
+    iv = next((k for k, v in m.items() if v == 'idx'), 'idx')
+    for n in walk_no_defs(pcs.node):
+        if isinstance(n, ast.Assign) and isinstance(n.targets[0], ast.Tuple) and len(n.targets[0].elts) == 2 and isinstance(n.value, ast.Tuple) \
+                and all(isinstance(x, ast.Name) for x in n.targets[0].elts) and src(n.value.elts[0]).replace(' ', '') == f'{dv}[:{iv}]':
+            m[n.targets[0].elts[0].id], m[n.targets[0].elts[1].id] = 'line', 'rest_chunk'
+    for n in walk_no_defs(pcs.node):
+        if isinstance(n, ast.Assign) and isinstance(n.targets[0], ast.Name) and isinstance(n.value, ast.Call) and call_name(n.value) == 'int' and len(n.value.args) == 2:
+            m[n.targets[0].id] = 'chunk_size'
+    return m
+
+
 def _searches(f):
     """find()/index() calls with a bytes constant containing CRLF → [(call, haystack src)]."""
     out = []
@@ -247,6 +283,8 @@ def rule_b(repo, chk, p, ex):
     # chunked body: consumed chunk removed from the carry, incomplete chunk keeps it
     pb = p.methods['_parse_body']
     chk.touch(pb)
+    from .common import renamed
+    pb = renamed(pb, _body_roles(pb))
     gb = pb.cfg()
     appends = [n for n in gb.nodes if n.kind == 'stmt' and any(r == 'self._body' for r, _c in pat.method_calls(n.ast, 'append'))]
     bst = [n for n in gb.nodes if n.kind == 'stmt' and 'self' in pat.stores_attr(n.ast, '_buf')]
@@ -271,6 +309,7 @@ def rule_b(repo, chk, p, ex):
     pcs = p.methods.get('_parse_chunk_size')
     need(pcs, 'C13.b: _parse_chunk_size missing')
     chk.touch(pcs)
+    pcs = renamed(pcs, _chunk_roles(pcs))
     gc = pcs.cfg()
     last = [n for n in gc.nodes if n.kind == 'stmt' and isinstance(n.ast, ast.Return) and isinstance(n.ast.value, ast.Tuple) and pat.is_const(n.ast.value.elts[0], 0)]
     need(last, 'C13.b: _parse_chunk_size never reports the last chunk')
